@@ -182,6 +182,16 @@ def pool_fitter(method, rows, sigma_k, keep):
     raise ValueError(method)
 
 
+def nearly_degenerate(method, vec, eps=1e-9):
+    """zero norm (cosine types) / zero variance (all others) up to rounding noise: sums of
+    z-scores or ranks can cancel to 1e-16 instead of exactly 0"""
+    v = [float(t) for t in vec]
+    scale = max(1.0, max(abs(t) for t in v))
+    if method in ('cosine', 'cosine_cov'):
+        return max(abs(t) for t in v) <= eps * scale
+    return max(v) - min(v) <= eps * scale
+
+
 def noise_ceiling_loo(method, rows, keep):
     """leave-one-out lower and pooled upper noise ceiling on entry-deleted vectors:
     lower = mean_i sim(pool(all but i), i), upper = mean_i sim(pool(all), i).  None = undefined"""
@@ -195,7 +205,7 @@ def noise_ceiling_loo(method, rows, keep):
         if rest is None:
             return None
         for vec in (rest, full, rows[i]):
-            if M.is_degenerate(method, vec):
+            if nearly_degenerate(method, vec):
                 return None
         a = M.similarity(method, rest, rows[i], None, keep)
         b = M.similarity(method, full, rows[i], None, keep)
